@@ -50,8 +50,8 @@ Definition K (names : list (string * Z)) (ret end_ : list string) : option outco
 (* the implementation did not complete (panic): never equal to a model outcome other than OErr 8 *)
 Definition P : option outcome := Some (OErr 8).
 
-(* c mode pattern lines | observed: case-sensitive outcome, ignore-case outcome *)
-Definition c (mode : Z) (pat : string) (lines : list string) (cs ic : option outcome) : inp * obs :=
+(* one instance: mode pattern lines | observed: case-sensitive outcome, ignore-case outcome *)
+Definition one (mode : Z) (pat : string) (lines : list string) (cs ic : option outcome) : inp * obs :=
   ((Z.to_N mode, unhex pat, lines_of (cat lines)), (cs, ic)).
 
 (* compact form for long sequences: a table of the distinct lines / distinct results and one
@@ -62,7 +62,7 @@ Definition Nil : option (list Z) := None.
 Definition S_ (l : list Z) : option (list Z) := Some l.
 Definition KL (names : list (string * Z)) (rtbl : list (option (list Z))) (ret end_ : list string) : option outcome :=
   Some (OOk (map (fun p => (unhex (fst p), snd p)) names) (pick rtbl None (cat ret)) (pick rtbl None (cat end_))).
-Definition cL (mode : Z) (pat : string) (ltbl : list string) (seq : list string) (cs ic : option outcome) : inp * obs :=
+Definition oneL (mode : Z) (pat : string) (ltbl : list string) (seq : list string) (cs ic : option outcome) : inp * obs :=
   ((Z.to_N mode, unhex pat, pick (map unhex ltbl) [] (cat seq)), (cs, ic)).
 
 Example pick_ex : pick [S_ [1; 2]%Z; Nil] None "010" = [Some [1; 2]%Z; None; Some [1; 2]%Z].
@@ -72,7 +72,18 @@ Proof. reflexivity. Qed.
 Example lines_of_ex : lines_of "6162;;ff;" = [[97; 98]; []; [255]]%N /\ lines_of "" = [].
 Proof. split; reflexivity. Qed.
 
-Definition model := DissectRun.model.
-Definition oeqb := obs_eqb.
-Definition check := C12_check.
+(* A generated case is a GROUP of instance runs over the same pattern: one run for a sequence case;
+   for a concurrent case one run per instance and phase (instances of one factory used interleaved
+   in one goroutine, then one per goroutine at the same time).  Instances share no state, so the
+   model of a group is the model of each run alone; the group disagrees / fails if any run does. *)
+Definition gcase := (list inp * list obs)%type.
+Definition cG (items : list (inp * obs)) : gcase := (map fst items, map snd items).
+Definition c (mode : Z) (pat : string) (lines : list string) (cs ic : option outcome) : gcase :=
+  cG [one mode pat lines cs ic].
+Definition cL (mode : Z) (pat : string) (ltbl : list string) (seq : list string) (cs ic : option outcome) : gcase :=
+  cG [oneL mode pat ltbl seq cs ic].
+
+Definition model (is : list inp) : list obs := map DissectRun.model is.
+Definition oeqb (a b : list obs) : bool := list_eqb obs_eqb a b.
+Definition check (is : list inp) (os : list obs) : bool := all2 C12_check is os.
 Definition mm := mismatches model oeqb check.
